@@ -331,3 +331,80 @@ package value
 // ---------------------------------------------------------------- C02: operators registered as commutative in New
 //@ flags New
 //@   property C02
+
+// ---------------------------------------------------------------- C09 / C07: lists are persistent values
+// The content of a materialised list is items[0:len(items)]. Operations that "change" a list build a new one:
+// mutating code works on CopyToSlice, views handed out by ToSlice are capacity-capped, Append writes at most the one
+// slot behind the parent's length and then caps the parent. Eval (lazy materialisation, range-over-func: outside the
+// verified subset) is a TRUSTED contract: it materialises the list without changing the content of a list that was
+// materialised before.
+//@ predicate sameItems(l any) = l.itemsPresent && len(l.items) == old(len(l.items)) && (forall i in 0..len(l.items) :: l.items[i] == old(l.items[i]))
+
+//@ predicate frameKeptV(st any) = len(st.storage.data) >= old(len(st.storage.data)) && (forall i in 0..st.offs+st.size :: st.storage.data[i] == old(st.storage.data[i]))
+
+//@ func (l *List) Eval
+//@   trusted
+//@   requires l != nil && validStack(st)
+//@   ensures[materialised] result == nil ==> l.itemsPresent
+//@   ensures[content-kept] old(l.itemsPresent) ==> l.items == old(l.items) && sameItems(l)
+//@   ensures[frame-kept] frameKeptV(st)
+//@   ensures[disjoint-from-stack] l.itemsPresent ==> ref(l.items) != ref(st.storage.data)
+//@   assigns any List.items, any List.itemsPresent, any List.iterable, any funcGen.stackStorage[Value].data, any []Value
+
+//@ func createSliceIterable
+//@   property C09
+//@   ensures result != nil
+//@   assigns nothing
+
+//@ func NewList
+//@   property C09
+//@   ensures[wraps-the-slice] result != nil && fresh(result) && result.itemsPresent && result.items == items && result.size == len(items) && result.iterable != nil
+//@   assigns nothing
+
+//@ func (l *List) ToSlice
+//@   property C09
+//@   safety C05
+//@   requires l != nil && validStack(st)
+//@   ensures[frame-kept] frameKeptV(st)
+//@   ensures[capped-view] result1 == nil ==> l.itemsPresent && ref(result0) == ref(l.items) && off(result0) == off(l.items) && len(result0) == len(l.items) && cap(result0) == len(result0)
+//@   ensures[content-kept] old(l.itemsPresent) ==> sameItems(l)
+//@   assigns any List.items, any List.itemsPresent, any List.iterable, any funcGen.stackStorage[Value].data, any []Value
+
+//@ func (l *List) CopyToSlice
+//@   property C09
+//@   safety C05
+//@   requires l != nil && validStack(st)
+//@   ensures[frame-kept] frameKeptV(st)
+//@   ensures[fresh-copy] result1 == nil ==> l.itemsPresent && fresh(result0) && ref(result0) != ref(l.items) && ref(result0) != ref(st.storage.data) && len(result0) == len(l.items) && (forall i in 0..len(result0) :: result0[i] == l.items[i])
+//@   ensures[content-kept] old(l.itemsPresent) ==> sameItems(l)
+//@   assigns any List.items, any List.itemsPresent, any List.iterable, any funcGen.stackStorage[Value].data, any []Value
+
+//@ func (l *List) Append
+//@   property C09, C07
+//@   safety C05
+//@   requires l != nil && validStack(st) && st.size >= 2
+//@   ensures[frame-kept] frameKeptV(st)
+//@   ensures[parent-kept] result1 == nil && old(l.itemsPresent) ==> sameItems(l)
+//@   ensures[parent-capped] result1 == nil ==> l.itemsPresent && cap(l.items) == len(l.items)
+//@   ensures[appended] result1 == nil ==> result0 != nil && fresh(result0) && result0.itemsPresent && len(result0.items) == len(l.items)+1 && (forall i in 0..len(l.items) :: result0.items[i] == l.items[i]) && result0.items[len(l.items)] == old(st.storage.data[st.offs+1])
+//@   assigns any List.items, any List.itemsPresent, any List.iterable, any funcGen.stackStorage[Value].data, any []Value
+
+//@ func (l *List) Size
+//@   property C07
+//@   safety C05
+//@   requires l != nil && validStack(st)
+//@   ensures[frame-kept] frameKeptV(st)
+//@   ensures[size] result1 == nil ==> l.itemsPresent && result0 == len(l.items)
+//@   ensures[content-kept] old(l.itemsPresent) ==> sameItems(l)
+//@   assigns any List.items, any List.itemsPresent, any List.iterable, any funcGen.stackStorage[Value].data, any []Value
+
+//@ func (l *List) Reverse
+//@   property C09, C07
+//@   safety C05
+//@   requires l != nil && validStack(st)
+//@   ensures[frame-kept] frameKeptV(st)
+//@   ensures[receiver-kept] old(l.itemsPresent) ==> sameItems(l)
+//@   ensures[reversed] result1 == nil ==> result0 != nil && fresh(result0) && result0.itemsPresent && fresh(result0.items) && len(result0.items) == len(l.items) && (forall k in 0..len(l.items) :: result0.items[k] == l.items[len(l.items)-1-k])
+//@   assigns any List.items, any List.itemsPresent, any List.iterable, any funcGen.stackStorage[Value].data, any []Value
+//@   loop 1 invariant 0 <= i && i <= j+1 && j == len(items)-1-i && fresh(items) && ref(items) != ref(l.items) && ref(items) != ref(st.storage.data) && l.itemsPresent && len(items) == len(l.items) && (old(l.itemsPresent) ==> sameItems(l)) && frameKeptV(st)
+//@   loop 1 invariant (forall k in 0..i :: items[k] == l.items[len(items)-1-k]) && (forall k in j+1..len(items) :: items[k] == l.items[len(items)-1-k]) && (forall k in i..j+1 :: items[k] == l.items[k])
